@@ -20,9 +20,10 @@ require verif/sim v0.0.0
 replace verif/sim => $HERE/sim
 EOM
 mkdir -p zzverif && cp "$HERE"/harness/*.go zzverif/ || exit 2
+mkdir -p zzsimaux && cp "$HERE"/sim/aux/*.go zzsimaux/ || exit 2
 if [ -d "$HERE/harness/inject" ]; then cp "$HERE"/harness/inject/*.go . ; fi
 if [ ! -x "$HERE/bin/instr" ]; then (cd "$HERE/cmd/instr" && go build -o "$HERE/bin/instr" .) || exit 2; fi
-"$HERE/bin/instr" "$S" . ./pkg/... ./model/... ./zzverif/... > "$S/instr.log" 2>&1 || { cat "$S/instr.log" >&2; echo "build.sh: instrumentation failed" >&2; exit 2; }
+"$HERE/bin/instr" "$S" . ./pkg/... ./model/... ./zzverif/... ./zzsimaux/... > "$S/instr.log" 2>&1 || { cat "$S/instr.log" >&2; echo "build.sh: instrumentation failed" >&2; exit 2; }
 if [ -n "$RACE" ]; then
   go test -race -c -o "$OUT" ./zzverif > "$S/build.log" 2>&1 || { cat "$S/build.log" >&2; echo "build.sh: race build failed" >&2; exit 2; }
 else
